@@ -450,6 +450,12 @@ func New(t TB, p Params) *Sim {
 	if p.ZeroConf {
 		s.label("zero_conf_channel")
 	}
+	if p.RetryTx {
+		s.label("db_transactions_retried")
+		for i := 0; i < 2; i++ {
+			s.Sides[i].Fault.Retry.Store(true)
+		}
+	}
 
 	return s
 }
